@@ -59,6 +59,23 @@ def parseNum (bo : ByteOrder) (k : Nat) (rest : Bytes) : Except PErr (Nat × Nat
   else if !validSize k then .error (.crash "NotImplementedError")
   else .ok (decNat bo (rest.take k), k)
 
+/-- the same function for the compiled driver: the length test looks at `k` bytes only, so item loops
+over long buffers stay linear (the reference definition measures the whole rest at every item).
+`parseNum_eq_parseNumFast` is a kernel-checked equation; `@[csimp]` only tells the code generator to
+use it. -/
+def parseNumFast (bo : ByteOrder) (k : Nat) (rest : Bytes) : Except PErr (Nat × Nat) :=
+  if (rest.take k).length < k then .error (.notEnough (k - rest.length : Nat))
+  else if !validSize k then .error (.crash "NotImplementedError")
+  else .ok (decNat bo (rest.take k), k)
+
+@[csimp] theorem parseNum_eq_parseNumFast : @parseNum = @parseNumFast := by
+  funext bo k rest
+  have h : (rest.take k).length < k ↔ rest.length < k := by rw [List.length_take]; omega
+  unfold parseNum parseNumFast
+  by_cases hk : rest.length < k
+  · rw [if_pos hk, if_pos (h.mpr hk)]
+  · rw [if_neg hk, if_neg (fun x => hk (h.mp x))]
+
 /-- items of `_parse_numeric_array` once the length check has passed -/
 def numItems (bo : ByteOrder) (k : Nat) : Nat → Bytes → List Nat
   | 0, _ => []
@@ -95,6 +112,24 @@ def parseRaw (size : Int) (rest : Bytes) : Except PErr (Bytes × Nat) :=
   if size < 0 then .error .invalidValue
   else if rest.length < size.toNat then .error (.notEnough (size - rest.length))
   else .ok (rest.take size.toNat, size.toNat)
+
+/-- compiled form of `parseRaw`: the length test looks at `size` bytes only -/
+def parseRawFast (size : Int) (rest : Bytes) : Except PErr (Bytes × Nat) :=
+  if size < 0 then .error .invalidValue
+  else if (rest.take size.toNat).length < size.toNat then .error (.notEnough (size - rest.length))
+  else .ok (rest.take size.toNat, size.toNat)
+
+@[csimp] theorem parseRaw_eq_parseRawFast : @parseRaw = @parseRawFast := by
+  funext size rest
+  have h : (rest.take size.toNat).length < size.toNat ↔ rest.length < size.toNat := by
+    rw [List.length_take]; omega
+  unfold parseRaw parseRawFast
+  by_cases hs : size < 0
+  · rw [if_pos hs, if_pos hs]
+  · rw [if_neg hs, if_neg hs]
+    by_cases hk : rest.length < size.toNat
+    · rw [if_pos hk, if_pos (h.mpr hk)]
+    · rw [if_neg hk, if_neg (fun x => hk (h.mp x))]
 
 /-- `parse_bytes(name, size)`: a `size`-byte length prefix followed by that many bytes.  On a
 short body the error is `NotEnoughData(missing body bytes)`. -/
